@@ -54,6 +54,7 @@ func pidFieldOf(c c16Case) string {
 
 func c16Prelude(w *harness.World, c c16Case, mk func(w *harness.World, route, pid, secret string) harness.Req) {
 	known := c.Cfg.Accounts[0]
+	otpUsed := false
 	// the pair's precondition must survive the prelude: a locked account stays locked
 	budget := time.Duration(1<<62 - 1)
 	if c.Kind == "locked-pw" {
@@ -83,7 +84,10 @@ func c16Prelude(w *harness.World, c c16Case, mk func(w *harness.World, route, pi
 			}
 		case "otp-used":
 			// the known account spent one of its one-time passwords earlier - not the first and not the last of the list
-			if c.Cfg.Has("otp") && len(w.Seeded) > 0 && len(w.Seeded[0].OTPs) >= 3 && !c.Cfg.Accounts[0].TOTP && c.Cfg.Accounts[0].Phone == "" {
+			// (once: presenting the spent password again would be a failed attempt of its own and could lock the account,
+			// which the compared attempt must not do)
+			if !otpUsed && c.Cfg.Has("otp") && len(w.Seeded) > 0 && len(w.Seeded[0].OTPs) >= 3 && !c.Cfg.Accounts[0].TOTP && c.Cfg.Accounts[0].Phone == "" {
+				otpUsed = true
 				w.Do(harness.Req{Method: "POST", Path: w.Path("/otp/login"), Form: map[string]string{pidFieldOf(c): known.PID, "password": w.Seeded[0].OTPs[1]}})
 				w.Jars[0].ClearSession()
 			}
